@@ -21,7 +21,7 @@ import (
 
 type RpcMultiplexer struct {
 	rw       types.RpcReadWriter
-	handlers map[uint64]chan *goatorepo.Rpc
+	handlers map[uint64]*muxHandler
 
 	ctx    context.Context
 	cancel context.CancelFunc
@@ -33,10 +33,41 @@ type RpcMultiplexer struct {
 	codec encoding.CodecV2
 }
 
+// muxHandler is the per-call hand-off from the read loop to the call. done is
+// closed when the call is unregistered or the connection fails; ch is never
+// closed, so the read loop can never send on a closed channel.
+type muxHandler struct {
+	ch   chan *goatorepo.Rpc
+	done chan struct{}
+}
+
+// recv returns the next Rpc for the handler, or false once the handler is done
+// and everything delivered before that has been consumed.
+func (h *muxHandler) recv(ctx context.Context) (*goatorepo.Rpc, bool, error) {
+	select {
+	case rpc := <-h.ch:
+		return rpc, true, nil
+	default:
+	}
+	select {
+	case rpc := <-h.ch:
+		return rpc, true, nil
+	case <-h.done:
+		select {
+		case rpc := <-h.ch:
+			return rpc, true, nil
+		default:
+			return nil, false, nil
+		}
+	case <-ctx.Done():
+		return nil, false, ctx.Err()
+	}
+}
+
 func NewRpcMultiplexer(rw types.RpcReadWriter) *RpcMultiplexer {
 	rm := &RpcMultiplexer{
 		rw:       rw,
-		handlers: make(map[uint64]chan *goatorepo.Rpc),
+		handlers: make(map[uint64]*muxHandler),
 		codec:    encoding.GetCodecV2(proto.Name),
 	}
 
@@ -63,8 +94,8 @@ func (rm *RpcMultiplexer) closeError(err error) {
 
 	if err != nil {
 		rm.rErr = err
-		for id, ch := range rm.handlers {
-			close(ch)
+		for id, h := range rm.handlers {
+			close(h.done)
 			delete(rm.handlers, id)
 		}
 	}
@@ -79,9 +110,8 @@ func (rm *RpcMultiplexer) CallUnaryMethod(
 
 	streamId := atomic.AddUint64(&rm.streamCounter, 1)
 
-	respChan := make(chan *goatorepo.Rpc, 1)
-
-	if err := rm.registerHandler(streamId, respChan); err != nil {
+	h, err := rm.registerHandler(streamId)
+	if err != nil {
 		return nil, err
 	}
 	defer rm.unregisterHandler(streamId)
@@ -92,17 +122,20 @@ func (rm *RpcMultiplexer) CallUnaryMethod(
 		Body:   body,
 	}
 
-	err := rm.rw.Write(ctx, &rpc)
+	err = rm.rw.Write(ctx, &rpc)
 	if err != nil {
 		log.Error().Err(err).Msg("CallUnaryMethod: conn.Write")
 		return nil, err
 	}
 
-	select {
-	case resp, ok := <-respChan:
-		if !ok {
-			return nil, fmt.Errorf("respChan closed")
-		}
+	resp, ok, err := h.recv(ctx)
+	if err != nil {
+		return nil, err
+	}
+	if !ok {
+		return nil, fmt.Errorf("respChan closed")
+	}
+	{
 		for _, sh := range statsHandlers {
 			headers, _ := internal.ToMetadata(resp.GetHeader().Headers)
 
@@ -123,9 +156,6 @@ func (rm *RpcMultiplexer) CallUnaryMethod(
 			return resp.Body, nil
 		}
 		return nil, fmt.Errorf("malformed response: no body or status")
-
-	case <-ctx.Done():
-		return nil, ctx.Err()
 	}
 }
 
@@ -138,8 +168,8 @@ func (rm *RpcMultiplexer) NewStreamReadWriter(
 
 	streamId := atomic.AddUint64(&rm.streamCounter, 1)
 
-	respChan := make(chan *goatorepo.Rpc, 1)
-	if err := rm.registerHandler(streamId, respChan); err != nil {
+	h, err := rm.registerHandler(streamId)
+	if err != nil {
 		return 0, nil, nil, err
 	}
 
@@ -149,18 +179,17 @@ func (rm *RpcMultiplexer) NewStreamReadWriter(
 
 	rw := internal.NewFnReadWriter(
 		func(ctx context.Context) (*goatorepo.Rpc, error) {
-			select {
-			case rpc, ok := <-respChan:
-				if !ok {
-					if err := rm.readErrorIfDone(); err != nil {
-						return nil, err
-					}
-					return nil, fmt.Errorf("respChan closed")
-				}
-				return rpc, nil
-			case <-ctx.Done():
-				return nil, ctx.Err()
+			rpc, ok, err := h.recv(ctx)
+			if err != nil {
+				return nil, err
 			}
+			if !ok {
+				if err := rm.readErrorIfDone(); err != nil {
+					return nil, err
+				}
+				return nil, fmt.Errorf("respChan closed")
+			}
+			return rpc, nil
 		},
 		func(ctx context.Context, rpc *goatorepo.Rpc) error {
 			err := rm.rw.Write(ctx, rpc)
@@ -190,36 +219,45 @@ func (rm *RpcMultiplexer) readLoop() error {
 
 func (rm *RpcMultiplexer) handleResponse(rpc *goatorepo.Rpc) {
 	rm.mutex.Lock()
-	defer rm.mutex.Unlock()
+	h, ok := rm.handlers[rpc.GetId()]
+	rm.mutex.Unlock()
 
-	ch, ok := rm.handlers[rpc.GetId()]
 	if !ok {
 		// TODO: getting log lines from here after cancelling streams
 		log.Error().Msgf("Mux: unhandled Rpc %d", rpc.GetId())
 		return
 	}
-	ch <- rpc
+	// Never block while holding the registry lock: the call's own teardown
+	// needs it.
+	select {
+	case h.ch <- rpc:
+	case <-h.done:
+	}
 }
 
 // registerHandler registers a call, unless reading from the connection has
 // already failed: a call registered after that would never be woken.
-func (rm *RpcMultiplexer) registerHandler(id uint64, c chan *goatorepo.Rpc) error {
+func (rm *RpcMultiplexer) registerHandler(id uint64) (*muxHandler, error) {
 	rm.mutex.Lock()
 	defer rm.mutex.Unlock()
 
 	if rm.rErr != nil {
-		return rm.rErr
+		return nil, rm.rErr
 	}
-	rm.handlers[id] = c
-	return nil
+	h := &muxHandler{
+		ch:   make(chan *goatorepo.Rpc, 1),
+		done: make(chan struct{}),
+	}
+	rm.handlers[id] = h
+	return h, nil
 }
 
 func (rm *RpcMultiplexer) unregisterHandler(id uint64) {
 	rm.mutex.Lock()
 	defer rm.mutex.Unlock()
 
-	if ch, ok := rm.handlers[id]; ok {
-		close(ch)
+	if h, ok := rm.handlers[id]; ok {
+		close(h.done)
 	}
 
 	delete(rm.handlers, id)
